@@ -227,6 +227,7 @@ func loadFindings() {
 	if path == "" {
 		path = filepath.Join(verifDir(), "known_findings.json")
 	}
+	defer loadFragments()
 	b, err := os.ReadFile(path)
 	if err != nil {
 		return
@@ -240,6 +241,22 @@ func loadFindings() {
 	}
 	for _, f := range file.Findings {
 		kf[f.ID] = f
+	}
+}
+
+// fragments: /verif/known/<finding>.json, one Finding object each (merged into
+// known_findings.json by the integrator; read here so work in progress counts).
+func loadFragments() {
+	files, _ := filepath.Glob(filepath.Join(verifDir(), "known", "*.json"))
+	for _, fn := range files {
+		b, err := os.ReadFile(fn)
+		if err != nil {
+			continue
+		}
+		var f Finding
+		if json.Unmarshal(b, &f) == nil && f.ID != "" {
+			kf[f.ID] = f
+		}
 	}
 }
 
